@@ -249,7 +249,7 @@ def run_property(pid, tier, seed):
     if any(m.startswith(('anchor-lost', 'tool-limit')) for m in inconclusive) and not violations and spec.get('replay'):
         rp = spec['replay']
         keys = sorted(set(rp.values())) if isinstance(rp, dict) else [rp]
-        bounded = {'keys': keys, 'found': None}
+        bounded = {'keys': keys, 'found': None, 'bounds': {k: props.REPLAY_BOUNDS.get(k, '') for k in keys}}
         for key in keys:
             try:
                 cex, slog = run_replay_search(key, {'name': 'bounded-standin', 'function': 'prop:' + pid}, seed)
@@ -273,7 +273,7 @@ def run_property(pid, tier, seed):
     if tier == 'thorough' and spec.get('replay') and not violations and bounded is None:
         rp = spec['replay']
         keys = sorted(set(rp.values())) if isinstance(rp, dict) else [rp]
-        crosscheck = {}
+        crosscheck = {'bounds': {k: props.REPLAY_BOUNDS.get(k, '') for k in keys}}
         for key in keys:
             try:
                 cex, slog = run_replay_search(key, {'name': 'bounded-crosscheck', 'function': 'prop:' + pid}, seed)
